@@ -85,7 +85,7 @@ type c26fail struct {
 
 // c26sink collects failures and counters inside a worker (engine.Run lives in the parent).
 type c26sink struct {
-	Fails    []c26fail      `json:"fails"`
+	Fails    []c26fail `json:"fails"`
 	perSig   map[string]int
 	Counters map[string]int `json:"counters"`
 	Broken   string         `json:"broken"`
@@ -109,7 +109,9 @@ type c26cfg struct {
 	AllowLocalhost bool
 }
 
-func (c c26cfg) String() string { return fmt.Sprintf("Max=%d,AllowLocalhost=%v", c.Max, c.AllowLocalhost) }
+func (c c26cfg) String() string {
+	return fmt.Sprintf("Max=%d,AllowLocalhost=%v", c.Max, c.AllowLocalhost)
+}
 
 type c26live struct {
 	px       *pex.Pex
